@@ -38,6 +38,35 @@ def flatten(lst):
             yield elm
 
 
+class Sign(str):
+    """ The '-' of a negated variable (`-@a`). It compares equal to the plain
+    '-' token, but can be told from a binary minus once the value of the
+    variable is known.
+    """
+
+
+def fold_signs(tokens):
+    """ Apply the signs of negated variables to their resolved values:
+    two signs cancel, the sign of a negative number is removed together
+    with that of the value ('-' '-3px' is '3px', not '--3px').
+    Args:
+        tokens (list): flat, resolved tokenlist
+    Returns:
+        list
+    """
+    out = []
+    for t in tokens:
+        if out and isinstance(out[-1], Sign):
+            if isinstance(t, Sign):
+                out.pop()
+                continue
+            if isinstance(t, string_types) and re.match(r'-\.?[0-9]', t):
+                out[-1] = t[1:]
+                continue
+        out.append(t)
+    return out
+
+
 def pairwise(lst):
     """ yield item i and item i+1 in lst. e.g.
         (lst[0], lst[1]), (lst[1], lst[2]), ..., (lst[-1], None)
